@@ -1,7 +1,8 @@
 use crate::contract::IBC_TIMEOUT;
 use crate::error::{ContractError, ContractResult};
 use crate::helpers::{
-    compute_mint_amount, compute_unbond_amount, derive_intermediate_sender, get_rates,
+    compute_deadline, compute_mint_amount, compute_unbond_amount, derive_intermediate_sender,
+    get_rates,
     paginate_map, validate_address, validate_addresses,
 };
 use crate::oracle::Oracle;
@@ -15,7 +16,7 @@ use crate::tokenfactory;
 use crate::types::{UnsafeNativeChainConfig, UnsafeProtocolChainConfig, UnsafeProtocolFeeConfig};
 use cosmwasm_std::{
     ensure, Coin, CosmosMsg, Deps, DepsMut, Env, IbcTimeout, MessageInfo, Order, ReplyOn, Response,
-    StdError, SubMsg, SubMsgResponse, SubMsgResult, Timestamp, Uint128,
+    SubMsg, SubMsgResponse, SubMsgResult, Timestamp, Uint128,
 };
 use cw_utils::PaymentError;
 use milky_way::staking::{Batch, BatchStatus};
@@ -398,11 +399,7 @@ pub fn execute_submit_batch(
     let new_pending_batch = Batch::new(
         batch.id + 1,
         Uint128::zero(),
-        env.block
-            .time
-            .seconds()
-            .checked_add(config.batch_period)
-            .ok_or_else(|| StdError::generic_err("batch period is too large"))?,
+        compute_deadline(env.block.time.seconds(), config.batch_period)?,
     );
 
     // Save new pending batch
@@ -444,13 +441,10 @@ pub fn execute_submit_batch(
     batch.expected_native_unstaked = Some(unbond_amount);
     batch.update_status(
         BatchStatus::Submitted,
-        Some(
-            env.block
-                .time
-                .seconds()
-                .checked_add(config.native_chain_config.unbonding_period)
-                .ok_or_else(|| StdError::generic_err("unbonding period is too large"))?,
-        ),
+        Some(compute_deadline(
+            env.block.time.seconds(),
+            config.native_chain_config.unbonding_period,
+        )?),
     );
 
     BATCHES.save(deps.storage, batch.id, &batch)?;
